@@ -54,15 +54,37 @@ theorem only_value_error_peFindMagicPe (f : PyFile) : NeverRaises (peFindMagicPe
 
 /-- `find_stage_prepend_append` on a file object whose `seek` accepts every non-negative offset (the `PyFile` model;
 io.BytesIO up to 2^63): `fh.seek(mz_offset + SizeOfHeaders + Σ SizeOfRawData)` is a sum of unsigned fields, far beyond
-the end of the data is allowed (the read returns `b""`).  For real files see `…_full` / `…_partial` below. -/
+the end of the data is allowed (the read returns `b""`).  For file objects with a largest offset see `…_full` below. -/
 theorem only_value_error_peFindStagePrependAppend_unlimited (f : PyFile) : NeverRaises (peFindStagePrependAppend f) :=
   findStagePrependAppend_ok f (some 0) MAXRANGE
 
-/-- **Full statement — does NOT hold for the code as it stands.**  `L` = largest offset `lseek` accepts on the file
-system that holds an OS file (ext4 with 4 KiB blocks: `2^44 - 4096`, measured; every seek of the other entry points
-stays below `2^34`). -/
-def only_value_error_peFindStagePrependAppend_full : Prop :=
-  ∀ (L : Nat) (f : PyFile), 2 ^ 34 ≤ L → NeverRaises (peFindStagePrependAppendL L f)
+/-- **Full statement** (holds since fix ce8ae1d): for every largest offset `L` the file object's `seek` accepts
+(OS file: the file system's limit, EINVAL → OSError above it, e.g. `2^44 - 4096` on ext4 with 4 KiB blocks; io.BytesIO:
+`2^63 - 1`, OverflowError above it), every content, position and file kind, `find_stage_prepend_append` returns.
+No lower bound on `L` is needed: whatever the final `fh.seek(mz_offset + size)` raises is caught. -/
+theorem only_value_error_peFindStagePrependAppend_full (L : Nat) (f : PyFile) :
+    NeverRaises (peFindStagePrependAppendL L f) :=
+  findStagePrependAppendL_ok L f
+
+/-- … and for ANY behaviour of the file object's final `seek` that stays inside the `except` clause
+`(OSError, OverflowError, ValueError)` (e.g. a negative-offset rejection, were it reachable) -/
+theorem only_value_error_peFindStagePrependAppend_anySeek (sk : PyFile → Int → Py (Nat × PyFile)) (f : PyFile)
+    (hsk : ∀ g t e, sk g t = .error e → seekCaught e = true) :
+    NeverRaises (peFindStagePrependAppendG true sk f) :=
+  findStagePrependAppendG_ok sk f hsk
+
+/-- the limit is not observable in the result: as long as the file itself fits below `L`, the limited model returns
+exactly what the unlimited (C18) model returns — a rejected seek and an accepted seek beyond the end of the data both
+give `(prepend, None)` -/
+theorem peFindStagePrependAppend_limit_irrelevant (L : Nat) (f : PyFile) (hL : f.data.length ≤ L) :
+    peFindStagePrependAppendL L f = peFindStagePrependAppend f :=
+  findStagePrependAppendL_eq L f hL
+
+/-! #### history: the code before fix ce8ae1d (bare `fh.seek(mz_offset + size)`) -/
+
+/-- the statement for the OLD code — refuted below -/
+def only_value_error_peFindStagePrependAppend_old : Prop :=
+  ∀ (L : Nat) (f : PyFile), 2 ^ 34 ≤ L → NeverRaises (peFindStagePrependAppendLOld L f)
 
 /-- a 512-byte image: DOS header (`e_lfanew = 64`), `PE\0\0`, i386 file header with 5 sections, zeroed optional header,
 5 section headers with `SizeOfRawData = 0xFFFFFFFF` -/
@@ -71,37 +93,25 @@ def ppaWitness : Bytes :=
   [0x4c, 0x01, 5, 0] ++ List.replicate 12 0 ++ [224, 0, 0x02, 0x21] ++ List.replicate 224 0 ++
   (List.replicate 5 (List.replicate 16 0 ++ [0xff, 0xff, 0xff, 0xff] ++ List.replicate 20 0)).flatten
 
-/-- the witness: on an OS file whose file system ends at 16 GiB the final `fh.seek(mz_offset + size)` is rejected and
-`OSError` escapes (on io.BytesIO the same bytes give `(None, None)`).  The real library on the sandbox's ext4 needs 4096
-sections for the same effect (`/tmp/C08/demo_ppa_oserror.py`; finding `C08-ppa-seek-beyond-fs-limit`). -/
-theorem ppaWitness_raises :
-    peFindStagePrependAppendL (2 ^ 34) ⟨ppaWitness, 0, .osFile⟩ = .error .osError ∧
-    peFindStagePrependAppendL (2 ^ 34) ⟨ppaWitness, 0, .bytesIO⟩ = .ok (none, none) := by decide +kernel
+/-- the witness: on an OS file whose file system ends at 16 GiB the final `fh.seek(mz_offset + size)` is rejected; the
+old code let `OSError` escape, the current code returns `(None, None)` (as it does on io.BytesIO).  The real library on
+the sandbox's ext4 needed 4096 sections for the same effect (finding `C08-ppa-seek-beyond-fs-limit`, repaired). -/
+theorem ppaWitness_old_raises_new_returns :
+    peFindStagePrependAppendLOld (2 ^ 34) ⟨ppaWitness, 0, .osFile⟩ = .error .osError ∧
+    peFindStagePrependAppendL (2 ^ 34) ⟨ppaWitness, 0, .osFile⟩ = .ok (none, none) ∧
+    peFindStagePrependAppend ⟨ppaWitness, 0, .bytesIO⟩ = .ok (none, none) := by decide +kernel
 
-theorem only_value_error_peFindStagePrependAppend_full_fails : ¬ only_value_error_peFindStagePrependAppend_full := by
+theorem only_value_error_peFindStagePrependAppend_refutes_old : ¬ only_value_error_peFindStagePrependAppend_old := by
   intro h
   obtain ⟨r, hr⟩ := h (2 ^ 34) ⟨ppaWitness, 0, .osFile⟩ (Nat.le_refl _)
-  rw [ppaWitness_raises.1] at hr
+  rw [ppaWitness_old_raises_new_returns.1] at hr
   cases hr
 
-/-- **What is proved instead**: never raises on io.BytesIO, and on an OS file that is too short to hold the section
-headers needed to push `mz_offset + size` beyond `L` (ext4: files below 163 760 bytes). -/
-theorem only_value_error_peFindStagePrependAppend_partial (L : Nat) (f : PyFile)
-    (h : f.kind = .bytesIO ∨ f.data.length + 4294967296 * (f.data.length / 40 + 1) ≤ L) :
-    NeverRaises (peFindStagePrependAppendL L f) :=
-  findStagePrependAppendL_ok L f h
-
-/-- the excluding hypothesis is satisfied by every file below 163 760 bytes on ext4 -/
-theorem ext4_short_files_safe (f : PyFile) (h : f.data.length < 163760) :
-    NeverRaises (peFindStagePrependAppendL ext4MaxOffset f) := by
-  apply only_value_error_peFindStagePrependAppend_partial
-  right
-  unfold ext4MaxOffset
-  omega
-
-/-- the refined model with an unlimited seek is the C18 model (so the copy in `Model/C08.lean` cannot drift) -/
-theorem prependAppendAtG_is_C18 (f : PyFile) (o : Nat) :
-    prependAppendAtG PyFile.seekSet f o = C18.prependAppendAt f o := rfl
+/-- the refined model with an unlimited seek is the C18 model, with or without the `try` (so the copy in
+`Model/C08.lean` cannot drift) -/
+theorem prependAppendAtG_is_C18 (guarded : Bool) (f : PyFile) (o : Nat) :
+    prependAppendAtG guarded PyFile.seekSet f o = C18.prependAppendAt f o :=
+  prependAppendAtG_seekSet guarded f o
 
 /-- `XorEncodedFile.from_file`: a view, or the documented ValueError -/
 theorem only_value_error_xorEncodedFromFile (B : Nat) (f : PyFile) : OkOrValueError (xorEncodedFromFile B f) :=
@@ -149,7 +159,7 @@ theorem not_found_values_pe (f : PyFile) (h : C18.NoEarlierCandidate f.data 0 MA
   · simp only [peFindMagicMz, C18.findMagicMz, hr]
   · simp only [peFindMagicPe, C18.findMagicPe, hr]
   · simp only [peFindStagePrependAppend, C18.findStagePrependAppend, hr]
-  · intro L; unfold peFindStagePrependAppendL; rw [hr]
+  · intro L; unfold peFindStagePrependAppendL peFindStagePrependAppendG; rw [hr]
 
 /-- the ArtifactKit scanner on a file without a matching header yields nothing (an empty iterator, no exception) -/
 theorem not_found_values_artifactkit (f : PyFile) (h : C15.artifactOffsets f.data 0 none = []) :
